@@ -47,6 +47,7 @@ def mutations(rnd, fs, pats, kmax=3, kinds=("alter", "remove", "add", "touch", "
     ops = []
     truth = {"altered": set(), "removed": set(), "added": set()}
     files = sorted(fs.files)
+    sealed = dict(fs.files)   # contents at the time of the seal: "altered" is judged against these, not against the previous edit
     for _ in range(rnd.randint(1, kmax)):
         k = rnd.choice(kinds)
         files = sorted(p for p in fs.files if p not in truth["removed"])
@@ -64,7 +65,7 @@ def mutations(rnd, fs, pats, kmax=3, kinds=("alter", "remove", "add", "touch", "
                 new = old[:-1]
             else:
                 new = "replaced " + old
-            if new == old:
+            if new == old or new == sealed.get(p):
                 new = old + "x"
             fs.files[p] = new
             ops.append({"op": "write", "path": p, "data": gen.enc(new)})
@@ -106,4 +107,5 @@ def mutations(rnd, fs, pats, kmax=3, kinds=("alter", "remove", "add", "touch", "
                 if p not in fs.files and p not in fs.dirs:
                     ops.append({"op": "write", "path": p, "data": "ignored new"})
                     fs.files[p] = "ignored new"
+    truth["altered"] = {p for p in truth["altered"] if fs.files.get(p) != sealed.get(p)}
     return ops, truth
